@@ -313,6 +313,8 @@ def _report(item, d, vseed, base):
 
 
 def _differs(item, hashseeds, base, full=False):
+    # (a difference inside ONE process is reported with hashseeds [0, 0]: one interpreter)
+    hashseeds = list(dict.fromkeys(hashseeds))
     jobs = [(hs, 0, {"items": [item], "shuffle_seed": 0, "full": full}) for hs in hashseeds]
     res = run_workers(jobs, base)
     a = res[(hashseeds[0], 0)]
